@@ -58,8 +58,7 @@ func (c *Classifier) Classify(t *html.Node) (Type, Reason) {
 	parent := t.Parent
 	for parent != nil {
 		parentTagName := dom.TagName(parent)
-		parentEditable := dom.GetAttribute(parent, "contenteditable")
-		if parentTagName == "input" || strings.ToLower(parentEditable) == "true" {
+		if parentTagName == "input" || isEditable(parent) {
 			return c.logAndReturn(Layout, InsideEditableArea)
 		}
 		parent = parent.Parent
@@ -201,6 +200,21 @@ func (c *Classifier) Classify(t *html.Node) (Type, Reason) {
 
 	// 18) Otherwise, it's data table.
 	return c.logAndReturn(Data, Default)
+}
+
+// isEditable checks the contenteditable attribute of an element: the empty
+// string, "true" and "plaintext-only" make it editable.
+func isEditable(element *html.Node) bool {
+	if !dom.HasAttribute(element, "contenteditable") {
+		return false
+	}
+
+	switch strings.ToLower(strings.TrimSpace(dom.GetAttribute(element, "contenteditable"))) {
+	case "", "true", "plaintext-only":
+		return true
+	default:
+		return false
+	}
 }
 
 func (c *Classifier) hasNestedTables(t *html.Node) bool {
